@@ -141,7 +141,11 @@ pub enum BlockSpec {
     Derived { kind: u8, k: u32 },
     // file-backed sources (C16)
     FileSourceU8 { len: u32, repeat: u8 },
-    FileSourceF32 { len: u32, repeat: u8 },
+    /// file of 24-bit samples (user-defined Sample type, 3 bytes serialised)
+    FileSourceS24 { len: u32, repeat: u8 },
+    /// `dangle`: 1-3 bytes of a partial sample after the last whole one (only used with
+    /// repeat 0 or 1: what a repeated partial sample means is not defined)
+    FileSourceF32 { len: u32, repeat: u8, #[serde(default)] dangle: u8 },
     /// SigMF source of rf32_le data; `archive`: tar archive instead of a recording pair
     /// `opts`: bit 0 = builder option ignore_type_error(), bit 1 = builder option sample_rate()
     SigMFSourceF32 { len: u32, repeat: u8, archive: bool, #[serde(default)] opts: u8 },
@@ -159,10 +163,17 @@ pub fn finite_source_strategy() -> BoxedStrategy<BlockSpec> {
     prop_oneof![
         (len(), rep()).prop_map(|(len, repeat)| VectorSourceU8 { len, repeat }),
         (len(), rep()).prop_map(|(len, repeat)| FileSourceU8 { len, repeat }),
-        (len(), rep()).prop_map(|(len, repeat)| FileSourceF32 { len: len / 2, repeat }),
+        (len(), rep(), prop_oneof![3 => Just(0u8), 1 => 1u8..4]).prop_map(|(len, repeat, dangle)| FileSourceF32 { len: len / 2, repeat, dangle }),
+        (len(), rep()).prop_map(|(len, repeat)| FileSourceS24 { len, repeat }),
         (len(), rep(), any::<bool>(), 0u8..4).prop_map(|(len, repeat, archive, opts)| SigMFSourceF32 { len: len / 2, repeat, archive, opts }),
     ]
     .boxed()
+}
+
+/// 24-bit signed values (sign-extended), pseudo-random
+pub fn s24_source_data(len: u32) -> Vec<i32> {
+    let mut r = crate::gens::XRng::new(len as u64 ^ 0x524);
+    (0..len).map(|_| ((r.next() as i32) << 8) >> 8).collect()
 }
 
 pub fn f32_source_data(len: u32) -> Vec<f32> {
@@ -350,7 +361,7 @@ impl BlockSpec {
             SignalSourceC32 => "SignalSourceComplex",
             NullSinkU8 => "NullSink",
             VectorSinkU8 { .. } => "VectorSink",
-            FileSourceU8 { .. } | FileSourceF32 { .. } => "FileSource",
+            FileSourceU8 { .. } | FileSourceF32 { .. } | FileSourceS24 { .. } => "FileSource",
             SigMFSourceF32 { .. } => "SigMFSource",
             Derived { kind, .. } => ["S11", "S12", "S13", "S21", "S22", "S23", "T11", "T21", "SDefInto", "N12"][(*kind % DERIVED_KINDS) as usize],
         }
@@ -362,7 +373,7 @@ impl BlockSpec {
         matches!(
             self,
             ConstantSourceF32 { .. } | SignalSourceF32 | SignalSourceC32 | VectorSourceU8 { repeat: 255, .. }
-                | FileSourceU8 { repeat: 255, .. } | FileSourceF32 { repeat: 255, .. } | SigMFSourceF32 { repeat: 255, .. }
+                | FileSourceU8 { repeat: 255, .. } | FileSourceF32 { repeat: 255, .. } | FileSourceS24 { repeat: 255, .. } | SigMFSourceF32 { repeat: 255, .. }
         )
     }
 
@@ -474,7 +485,7 @@ impl BlockSpec {
             ToTextU8 { n } => (0..*n as usize).map(|i| D::U8(gen_u8(&Gen { len: g[i].len.min(600), ..g[i] }, BDom::Bytes))).collect(),
             ToTextF32 { n } => (0..*n as usize).map(|i| D::F32(gen_f32(&Gen { len: g[i].len.min(300), ..g[i] }, FDom::Any))).collect(),
             VectorSourceU8 { .. } | ConstantSourceF32 { .. } | SignalSourceF32 | SignalSourceC32 => vec![],
-            FileSourceU8 { .. } | FileSourceF32 { .. } | SigMFSourceF32 { .. } => vec![],
+            FileSourceU8 { .. } | FileSourceF32 { .. } | FileSourceS24 { .. } | SigMFSourceF32 { .. } => vec![],
             NullSinkU8 | VectorSinkU8 { .. } => vec![D::U8(gen_u8(&g[0], BDom::Bytes))],
             Derived { kind, .. } => (0..derived_shape(*kind).0).map(|i| D::U32(gen_u32_small(&g[i]))).collect(),
         }
@@ -757,10 +768,23 @@ impl BlockSpec {
                 b.repeat(repeat_of(repeat));
                 Built { scratch: Some(sc), sink_probe: None, name: "FileSource".into(), block: Box::new(b), ins: vec![], outs: vec![Box::new(SOut::new(o))] }
             }
-            FileSourceF32 { len, repeat } => {
+            FileSourceS24 { len, repeat } => {
+                let sc = Scratch::new();
+                let path = sc.path("data.s24");
+                let bytes: Vec<u8> = s24_source_data(len).iter().flat_map(|x| vec![*x as u8, (*x >> 8) as u8, (*x >> 16) as u8]).collect();
+                std::fs::write(&path, bytes).expect("write scratch");
+                sss(out_size);
+                let (mut b, o) = FileSource::<crate::drip::Pcm24>::new(&path).expect("FileSource::new");
+                b.repeat(repeat_of(repeat));
+                Built { scratch: Some(sc), sink_probe: None, name: "FileSource".into(), block: Box::new(b), ins: vec![], outs: vec![Box::new(SOut::new(o))] }
+            }
+            FileSourceF32 { len, repeat, dangle } => {
                 let sc = Scratch::new();
                 let path = sc.path("data.f32");
-                let bytes: Vec<u8> = f32_source_data(len).iter().flat_map(|x| x.to_le_bytes()).collect();
+                let mut bytes: Vec<u8> = f32_source_data(len).iter().flat_map(|x| x.to_le_bytes()).collect();
+                if repeat <= 1 {
+                    bytes.extend(std::iter::repeat(0xA7u8).take((dangle % 4) as usize));
+                }
                 std::fs::write(&path, bytes).expect("write scratch");
                 sss(out_size);
                 let (mut b, o) = FileSource::<f32>::new(&path).expect("FileSource::new");
